@@ -69,6 +69,73 @@ entries at or before the last consumed offset (for a sorted selection). -/
 theorem C11_reposition_correct (cur : List Ent) (pos : Option Nat) :
     reposition cur pos = cur.findIdx (after pos) := reposition_eq cur pos
 
+/-! ### No message twice: the cursor only moves forward between rewinds and seeks -/
+
+/-- "at or after": ordering of cursor positions (`none` = before the first message). -/
+def posLe : Option Nat → Option Nat → Prop
+  | none, _ => True
+  | some _, none => False
+  | some p, some q => p ≤ q
+
+theorem posLe_refl (p : Option Nat) : posLe p p := by cases p <;> simp [posLe]
+
+theorem posLe_trans {p q r : Option Nat} (h1 : posLe p q) (h2 : posLe q r) : posLe p r := by
+  cases p <;> cases q <;> cases r <;> simp_all [posLe]; omega
+
+/-- operations that may move the cursor backwards on purpose -/
+def Reader.Op.repositions : Op → Bool
+  | .rewind | .seek _ _ | .seekEof => true
+  | _ => false
+
+/-- A `read_next` that returns a message returns one strictly after the position, and moves the position
+onto it; every other non-repositioning operation (all filters in both forms, `clear`) leaves the
+position alone. -/
+theorem C11_step_forward (a : Abs) (op : Op) (h : op.repositions = false) :
+    posLe a.pos (absStep a op).1.pos ∧
+      (∀ o, (absStep a op).2 = .msg o → ∃ e ∈ a.sel, e.ordinal = o ∧ after a.pos e = true ∧
+        (absStep a op).1.pos = some e.offset) := by
+  cases op with
+  | readNext =>
+    unfold absStep
+    cases hf : a.sel.find? (after a.pos) with
+    | none => exact ⟨posLe_refl _, by intro o ho; cases ho⟩
+    | some e =>
+      have hmem := List.mem_of_find?_eq_some hf
+      have hp := List.find?_some hf
+      refine ⟨?_, ?_⟩
+      · cases hpos : a.pos with
+        | none => simp [posLe]
+        | some p =>
+          rw [hpos] at hp
+          simp only [after, decide_eq_true_eq] at hp
+          simp only [posLe]; omega
+      · intro o ho
+        simp only [Res.msg.injEq] at ho
+        exact ⟨e, hmem, ho, hp, rfl⟩
+  | filterTypes ts => exact ⟨posLe_refl _, by intro o ho; cases ho⟩
+  | filterTime r =>
+    simp only [absStep]
+    cases sliceByRange a.sel (t0Of a.orig) r <;> exact ⟨posLe_refl _, by intro o ho; cases ho⟩
+  | filterSlice i j => exact ⟨posLe_refl _, by intro o ho; cases ho⟩
+  | removeUntimed => exact ⟨posLe_refl _, by intro o ho; cases ho⟩
+  | clear => exact ⟨posLe_refl _, by intro o ho; cases ho⟩
+  | rewind => cases h
+  | seek i f => cases h
+  | seekEof => cases h
+
+/-- **Forward only.** Over any history without `rewind` / `seek`, whatever filters are applied, replaced
+or cleared in between, the position never moves back.  With `C11_step_forward` (each returned message
+lies strictly after the position and becomes it): no message is returned twice and messages come out in
+increasing file order, until the caller rewinds or seeks. -/
+theorem C11_forward_only (ops : List Op) (hops : ∀ op ∈ ops, op.repositions = false) (a : Abs) :
+    posLe a.pos (absRun a ops).1.pos := by
+  induction ops generalizing a with
+  | nil => exact posLe_refl _
+  | cons op ops ih =>
+    unfold absRun
+    exact posLe_trans (C11_step_forward a op (hops op (List.mem_cons_self ..))).1
+      (ih (fun o ho => hops o (List.mem_cons_of_mem _ ho)) _)
+
 -- executable sanity check (a test): read one, filter to the later type, clear, read: continues after message 0
 #guard (run (Cur.init (indexOf [⟨0, 30, 1, 0, none⟩, ⟨30, 30, 2, 0, some 5000000000⟩, ⟨60, 30, 1, 0, none⟩]))
     [.readNext, .filterTypes [2], .clear, .readNext]).2 == [.msg 0, .done, .done, .msg 1]
